@@ -234,3 +234,51 @@ def exempt_cycle_has_no_coupling_iterations(cap: int, cycle: int, node: int, oth
     o.cs["tightCoupling"] = False
     o._performTightCoupling(cycle, node)
     assert trace == [("DBWRITE",)], "coupling off: nothing happens here (the database interface writes in its own hook)"
+
+
+# ----------------------------------------------------------------------------- any iteration cap (loop invariant)
+LOOP_INVARIANTS = {
+    ("armi.operators.operator:Operator._performTightCoupling", 1): {
+        "inv": [
+            "self.calls == _i",
+            "self.inOrder",
+            "_i == 0 or self.r.core.p.coupledIteration == _i",
+            "_i == 0 or not converged",
+            "forall(lambda j: not (0 <= j and j < _i) or not self.pat[j])",
+        ],
+        "havoc": ["self.calls", "self.inOrder", "self.r.core.p.coupledIteration"],
+        "fresh": {"converged": "bool"},
+    },
+}
+
+
+class CountingOperator(Operator):
+    """the real _performTightCoupling; the fan-out interactAllCoupled (contract proved for the real one in
+    coupling_iterates_until_all_converged_or_cap: calls the hooks, answers 'all couplers converged') is replaced by a
+    counter whose answer in iteration k is the arbitrary boolean pat[k]"""
+
+    def interactAllCoupled(self, coupledIteration):
+        self.inOrder = self.inOrder and coupledIteration == self.calls
+        self.calls = self.calls + 1
+        return self.pat[coupledIteration]
+
+
+@lemma(gen={"cap": (1, 6), "cycle": (0, 3), "node": (0, 3)})
+def any_cap_iterations_stop_at_first_convergence_or_cap(cap: int, cycle: int, node: int):
+    """cap is ANY integer >= 1 and the convergence pattern ANY boolean sequence (symbolic list): loop invariant"""
+    assume(cap >= 1)
+    pat = sym_list("bool", "pat", maxlen=8)
+    assume(len(pat) >= cap + 2)  # the pattern is longer than any run needs
+    trace = []
+    db = new(DbRec, name="database", _enabled=True, _bolForce=False, reverseAtEOL=False, trace=trace, halts=False, coupler=None)
+    r = new(Holder, p=new(PMap, cycle=cycle, timeNode=node, time=0.0), core=new(Holder, p=new(PMap, coupledIteration=0)))
+    cs = {"tightCoupling": True, "tightCouplingMaxNumIters": cap, "cyclesSkipTightCouplingInteraction": []}
+    o = new(CountingOperator, interfaces=[db], cs=cs, r=r, pat=pat, calls=0, inOrder=True)
+    o._performTightCoupling(cycle, node)
+    n = o.calls
+    assert 1 <= n and n <= cap, "at least one, at most cap iterations"
+    assert o.inOrder, "numbered 0, 1, 2, ... in order"
+    assert forall(lambda j: not (0 <= j and j < n - 1) or not pat[j]), "no earlier iteration had converged"
+    assert pat[n - 1] or n == cap, "stopped because all converged, or because the cap was reached"
+    assert r.core.p.coupledIteration == n
+    assert trace == [("DBWRITE",)], "then the node is written, once"
